@@ -4427,11 +4427,22 @@ class NetCDFWrite(IOWrite):
         omit = g["global_attributes"]
         if g["group"] and self.implementation.nc_get_variable_groups(f):
             # Also omit any group attributes from the variable
-            # (CF>=1.8)
+            # (CF>=1.8). A group attribute that has been recorded
+            # with a value of its own stays on the variable as well
+            # (also when it is a global attribute), because the
+            # property of the variable may differ from it and the
+            # group attribute would hide a global one.
             groups = self.implementation.nc_get_group_attributes(f)
             if groups:
-                omit = tuple(omit)
-                omit += tuple(groups)
+                forced = [
+                    attr
+                    for attr, value in groups.items()
+                    if value is not None
+                ]
+                omit = tuple(attr for attr in omit if attr not in forced)
+                omit += tuple(
+                    attr for attr in groups if attr not in forced
+                )
 
         if domain:
             # Include the dimensions attribute on domain
